@@ -45,6 +45,7 @@
 (* design check over every interleaving of the steps.                                                                     *)
 EXTENDS Integers, Sequences, FiniteSets, TLC
 CONSTANTS Streams, CbStreams, Closers, Atomic, MaxSend, MaxPeerClose, WithAccept, WithFlush,
+          FixedOpen, FixedFlush,   \* TRUE = the code after the fix: commits a49166e (OpenStream) and 075bc66 (Flush / alloc)
           MaxOps       \* bound on the number of user / peer operations of one behaviour (the workload length)
 
 Threads == Closers \cup {"loop", "w"}
@@ -181,10 +182,12 @@ CbRelease(s) ==
                    peerClosed, fl, acc, bm, qm, sendLoop, snap, cur, ws, tdRuns, nsent, npc, lastOpen, lastSend, sendLate,
                    openAtDeath, nops>>
 
-\* OpenStream once the session is shut down: `if s.IsClosed() { return nil, s.shutdownErr }`
+\* OpenStream once the session is shut down: reads shutdownErr under shutdownLock and falls back to ErrSessionShutdown
+\* while Close is between its CAS and the store of shutdownErr (fix a49166e; before it the result was (nil, nil)).
+\* FixedOpen = FALSE models the code before the fix (regression lead: ErrorKnown is then violated).
 TryOpen == /\ Start /\ Op /\ shutdown = 1 /\ lastOpen = "none"
-           /\ lastOpen' = IF serr = "nil" THEN "nilnil" ELSE "err"
-           /\ kf' = IF serr = "nil" THEN kf \cup {"open-nil-nil"} ELSE kf
+           /\ lastOpen' = IF serr = "nil" /\ ~FixedOpen THEN "nilnil" ELSE "err"
+           /\ kf' = IF serr = "nil" /\ ~FixedOpen THEN kf \cup {"open-nil-nil"} ELSE kf
            /\ UNCHANGED <<shutdown, serr, shutCh, pc, ret, lambdas, batch, conn, link, hup, inbox, flag, st, inTable,
                           tableNil, notified, cbBusy, waitExit, cbL, cbR, unread, peerClosed, rd, fl, acc, bm, qm, sendLoop,
                           snap, cur, ws, tdRuns, nsent, npc, lastSend, sendLate, openAtDeath>>
@@ -369,12 +372,15 @@ TdQueue == /\ Step("loop") /\ pc["loop"] = "t_q"
 
 -----------------------------------------------------------------------------
 \* the writer thread "w": Stream.Flush of one message through shared memory, and Stream.Close by the user
+\* Since 075bc66 Flush fails with ErrStreamClosed when the stream is not open OR the session is closed (written data is
+\* given back), and a BufferWriter write on a closed session allocates from the heap instead of the (unmapped) shared memory.
+\* FixedFlush = FALSE models the code before: the write after the teardown faults, a Flush in the window succeeds.
 SendCheck(s) == /\ Start /\ Op /\ pc["w"] = "idle" /\ s \notin CbStreams
                 /\ ws' = s /\ sendLate' = (shutdown = 1)
-                /\ IF bm = "released"    \* BufferWriter.WriteString allocates from the free list of the unmapped memory
+                /\ IF bm = "released" /\ ~FixedFlush
                      THEN pc' = pc /\ lastSend' = "fault" /\ kf' = kf \cup {"write-after-teardown-faults"}
                      ELSE /\ kf' = kf
-                          /\ IF st[s] = "open"
+                          /\ IF st[s] = "open" /\ ~(FixedFlush /\ shutdown = 1)
                                THEN pc' = [pc EXCEPT !["w"] = "s_put"] /\ lastSend' = "none"
                                ELSE pc' = pc /\ lastSend' = "err"
                 /\ UNCHANGED <<shutdown, serr, shutCh, ret, lambdas, batch, conn, link, hup, inbox, flag, st, inTable,
